@@ -91,6 +91,18 @@ type Profile struct {
 	// BlockFailureIsViolation: FinalizeBlock/Commit error or panic is this property's violation (C18)
 	BlockFailureIsViolation bool
 	VaryFees                bool // pay tx fees in any funded denom
+	ExtraOps                func(h *History, g *G) []*Op // profile-specific txs added to every block
+}
+
+// sameSignerBetween: does any tx in pending[pos:last] share the signer of pending[last]?
+// (moving a tx before an earlier tx of the same signer would break its sequence number)
+func sameSignerBetween(pending []TxRecord, pos, last int) bool {
+	for i := pos; i < last; i++ {
+		if pending[i].Signer == pending[last].Signer {
+			return true
+		}
+	}
+	return false
 }
 
 var defaultGaps = []time.Duration{time.Second, 5 * time.Second, 5 * time.Second, 6 * time.Second, 5 * time.Second, time.Hour + time.Second, 24*time.Hour + time.Second, 8 * 24 * time.Hour}
@@ -244,6 +256,18 @@ func shorten(s string, n int) string {
 
 // RunHistory is the rapid property body for a chain-engine profile.
 func RunHistory(t *rapid.T, p *Profile) {
+	h, viol := runHistoryCore(t, p)
+	h.emitStats(len(viol) > 0)
+	if len(viol) > 0 {
+		h.Trace.Violations = viol
+		writeFailTrace(&h.Trace)
+		t.Fatalf("VIOLATION %s: %s — %s", p.ID, viol[0].Sig, viol[0].Detail)
+	}
+}
+
+// runHistoryCore generates and executes one history and returns it with the
+// violations the profile's oracle found (nothing is reported here).
+func runHistoryCore(t *rapid.T, p *Profile) (*History, []Violation) {
 	spec := p.Spec(t)
 	h, err := newHistory(p, spec)
 	if err != nil {
@@ -268,6 +292,10 @@ func RunHistory(t *rapid.T, p *Profile) {
 					t.Fatalf("harness: env action %v: %v", e, err)
 				}
 			}
+		}
+		var extra []*Op
+		if p.ExtraOps != nil {
+			extra = p.ExtraOps(h, g) // marks its accounts busy before the grammar's txs are drawn
 		}
 		ntx := g.Int("ntx", 0, p.MaxTxs)
 		var kinds []string
@@ -295,6 +323,27 @@ func RunHistory(t *rapid.T, p *Profile) {
 			h.W.SubmitFee(op.Signer, fee, op.Msg)
 			kinds = append(kinds, op.Kind)
 		}
+		if p.ExtraOps != nil {
+			// profile-specific txs, interleaved at drawn positions among the grammar's txs
+			for _, op := range extra {
+				fee := op.Fee
+				if fee == nil {
+					fee = DefaultFee
+				}
+				h.W.SubmitFee(op.Signer, fee, op.Msg)
+				kinds = append(kinds, op.Kind)
+				// move the new tx to a drawn position (sequence numbers stay valid: one signer's txs keep their relative order
+				// only if the signer has a single tx in the block, which ExtraOps guarantees per position swap below)
+				pos := g.Pick("extrapos", len(h.W.Pending))
+				last := len(h.W.Pending) - 1
+				if pos != last && !sameSignerBetween(h.W.Pending, pos, last) {
+					tx, k := h.W.Pending[last], kinds[last]
+					copy(h.W.Pending[pos+1:], h.W.Pending[pos:last])
+					copy(kinds[pos+1:], kinds[pos:last])
+					h.W.Pending[pos], kinds[pos] = tx, k
+				}
+			}
+		}
 		gap := gaps[g.Pick("gap", len(gaps))]
 		viol = h.step(gap, env, kinds)
 		if len(viol) == 1 && viol[0].Sig == "block-processing-failed" && !p.BlockFailureIsViolation {
@@ -308,12 +357,7 @@ func RunHistory(t *rapid.T, p *Profile) {
 	if len(viol) == 0 && p.Final != nil {
 		viol = h.filterKnown(p.Final(h))
 	}
-	h.emitStats(len(viol) > 0)
-	if len(viol) > 0 {
-		h.Trace.Violations = viol
-		writeFailTrace(&h.Trace)
-		t.Fatalf("VIOLATION %s: %s — %s", p.ID, viol[0].Sig, viol[0].Detail)
-	}
+	return h, viol
 }
 
 // ---- known findings ---------------------------------------------------------
@@ -455,6 +499,11 @@ func EmitStats(v any) {
 	}
 	defer f.Close()
 	f.Write(append(bz, '\n'))
+}
+
+func writeTraceTo(path string, tr *Trace) {
+	bz, _ := json.MarshalIndent(tr, "", " ")
+	_ = os.WriteFile(path, bz, 0o644)
 }
 
 func writeFailTrace(tr *Trace) {
